@@ -556,52 +556,52 @@ Proof.
   - exists (Z.to_nat (x - 65)). split; [f_equal; lia | apply in_seq; lia].
 Qed.
 
-Definition ascii_lower (x : Z) : Z := if (65 <=? x) && (x <=? 90) then x + 32 else x.
-Definition ascii_word (x : Z) : bool :=
+Definition case_ascii_lower (x : Z) : Z := if (65 <=? x) && (x <=? 90) then x + 32 else x.
+Definition case_ascii_word (x : Z) : bool :=
   ((48 <=? x) && (x <=? 57)) || ((65 <=? x) && (x <=? 90)) || ((97 <=? x) && (x <=? 122)) || (x =? 95).
 
-Definition in_rng (a b x : Z) : bool := (a <=? x) && (x <=? b).
+Definition case_in_rng (a b x : Z) : bool := (a <=? x) && (x <=? b).
 
 (* set ids: 0 [Aa]  1 [BCbc]  2 [Xx]  3 [Yy]  4 [^BCbc]  5 [A-Za-zſK-[Mm]]  6 [A-Za-z-[m]] NOT closed:
    the shape built for (?i)[a-z-[m]] before addCaseEquivalences descended into the subtraction *)
-Definition ex_set_in (sid x : Z) : bool :=
+Definition case_ex_set_in (sid x : Z) : bool :=
   if sid =? 0 then (x =? 65) || (x =? 97)
-  else if sid =? 1 then in_rng 66 67 x || in_rng 98 99 x
+  else if sid =? 1 then case_in_rng 66 67 x || case_in_rng 98 99 x
   else if sid =? 2 then (x =? 88) || (x =? 120)
   else if sid =? 3 then (x =? 89) || (x =? 121)
-  else if sid =? 4 then negb (in_rng 66 67 x || in_rng 98 99 x)
-  else if sid =? 5 then (in_rng 65 90 x || in_rng 97 122 x || (x =? 383) || (x =? 8490))
+  else if sid =? 4 then negb (case_in_rng 66 67 x || case_in_rng 98 99 x)
+  else if sid =? 5 then (case_in_rng 65 90 x || case_in_rng 97 122 x || (x =? 383) || (x =? 8490))
                         && negb ((x =? 77) || (x =? 109))
-  else if sid =? 6 then (in_rng 65 90 x || in_rng 97 122 x) && negb (x =? 109)
+  else if sid =? 6 then (case_in_rng 65 90 x || case_in_rng 97 122 x) && negb (x =? 109)
   else false.
 
-Definition ex_env (text : list Z) : env :=
+Definition case_ex_env (text : list Z) : env :=
   {| txt := text; tstart := 0; ecma := false; endz_strict := false;
-     set_in := ex_set_in; lower := ascii_lower; is_word := ascii_word; is_eword := ascii_word |}.
+     set_in := case_ex_set_in; lower := case_ascii_lower; is_word := case_ascii_word; is_eword := case_ascii_word |}.
 
-Definition ex_tree1 : node :=
+Definition case_ex_tree1 : node :=
   NCapture 0 0 (-1) (NConcat 1 [NCapture 1 1 (-1) (NChar CSet 1 0);
                                 NCharLoop CSet LAtomic 1 1 1 INF;
                                 NMulti 0 [49; 50];
                                 NRef 1 1;
                                 NAnchor AEndZ]).
 (* (?i)a[b-c]+ under RightToLeft:  Capture-L(Concatenate-L(Setloop-L[BCbc]{1,inf} Set-L[Aa])) *)
-Definition ex_tree3 : node :=
+Definition case_ex_tree3 : node :=
   NCapture 64 0 (-1) (NConcat 64 [NCharLoop CSet LGreedy 65 1 1 INF; NChar CSet 65 0]).
-Definition ex_tree2 : node :=
+Definition case_ex_tree2 : node :=
   NCapture 0 0 (-1) (NConcat 1 [NChar CSet 1 2; NChar CSet 1 3; NChar CSet 1 4; NChar CSet 1 5;
                                 NAnchor ABoundary]).
 
-(* any two ex_env texts of equal length that are pointwise ascii_sim satisfy the section hypotheses *)
-Lemma ex_find_invariant (t : node) (w w' : list Z) :
+(* any two case_ex_env texts of equal length that are pointwise ascii_sim satisfy the section hypotheses *)
+Lemma case_ex_find_invariant (t : node) (w w' : list Z) :
   length w' = length w ->
   (forall i, 0 <= i < zlen w -> ascii_sim (nth (Z.to_nat i) w 0) (nth (Z.to_nat i) w' 0)) ->
-  ci_closedb ascii_pairs (ex_env w) t = true ->
+  ci_closedb ascii_pairs (case_ex_env w) t = true ->
   forall fuel rtl start prevlen,
-    find (ex_env w') fuel t rtl start prevlen = find (ex_env w) fuel t rtl start prevlen.
+    find (case_ex_env w') fuel t rtl start prevlen = find (case_ex_env w) fuel t rtl start prevlen.
 Proof.
   intros Hlen Hsim Hb fuel rtl start prevlen.
-  apply (ci_find_invariant ascii_sim ascii_sim_refl ascii_sim_sym (ex_env w) (ex_env w'));
+  apply (ci_find_invariant ascii_sim ascii_sim_refl ascii_sim_sym (case_ex_env w) (case_ex_env w'));
     try reflexivity; try assumption.
   apply (ci_closedb_iff ascii_sim ascii_pairs ascii_sim_sym ascii_pairs_sim ascii_sim_pairs), Hb.
 Qed.
@@ -676,10 +676,10 @@ Proof.
     destruct no; [apply IH, Hn | exact I].
 Qed.
 
-Lemma ex_case_variant (w w' : list Z) :
+Lemma case_ex_variant (w w' : list Z) :
   length w' = length w ->
   (forall i, 0 <= i < zlen w -> ascii_sim (nth (Z.to_nat i) w 0) (nth (Z.to_nat i) w' 0)) ->
-  case_variant ascii_sim (ex_env w) (ex_env w').
+  case_variant ascii_sim (case_ex_env w) (case_ex_env w').
 Proof. intros Hl Hs. unfold case_variant. cbn. repeat split; auto. Qed.
 
 (* pointwise check of two concrete texts *)
@@ -687,7 +687,7 @@ Fixpoint ascii_simb_list (w w' : list Z) : bool :=
   match w, w' with
   | [], [] => true
   | x :: w1, y :: w1' =>
-      ((x =? y) || (in_rng 97 122 x && (y =? x - 32)) || (in_rng 65 90 x && (y =? x + 32)))
+      ((x =? y) || (case_in_rng 97 122 x && (y =? x - 32)) || (case_in_rng 65 90 x && (y =? x + 32)))
       && ascii_simb_list w1 w1'
   | _, _ => false
   end.
@@ -701,17 +701,17 @@ Proof.
   - apply andb_true_iff in H. destruct H as [Hxy Hr]. destruct (IH _ Hr) as [Hl Hs].
     split; [cbn; lia|]. intros i Hi. unfold zlen in *. cbn [length] in Hi.
     destruct (Z.eq_dec i 0) as [->|Hn].
-    + cbn. unfold ascii_sim, in_rng in *. lia.
+    + cbn. unfold ascii_sim, case_in_rng in *. lia.
     + replace (Z.to_nat i) with (S (Z.to_nat (i - 1))) by lia. cbn [nth]. apply Hs. lia.
 Qed.
 
-Lemma ex_case_variant_b w w' : ascii_simb_list w w' = true ->
-  case_variant ascii_sim (ex_env w) (ex_env w').
-Proof. intros H. destruct (ascii_simb_list_ok _ _ H). apply ex_case_variant; assumption. Qed.
+Lemma case_ex_variant_b w w' : ascii_simb_list w w' = true ->
+  case_variant ascii_sim (case_ex_env w) (case_ex_env w').
+Proof. intros H. destruct (ascii_simb_list_ok _ _ H). apply case_ex_variant; assumption. Qed.
 
 Lemma ascii_sim_ok : sim_ok ascii_sim.
 Proof. split; [exact ascii_sim_refl | exact ascii_sim_sym]. Qed.
 
-Lemma ex_closedb_closed w t :
-  ci_closedb ascii_pairs (ex_env w) t = true -> ci_closed ascii_sim (ex_env w) t.
+Lemma case_ex_closedb_closed w t :
+  ci_closedb ascii_pairs (case_ex_env w) t = true -> ci_closed ascii_sim (case_ex_env w) t.
 Proof. apply (ci_closedb_iff ascii_sim ascii_pairs ascii_sim_sym ascii_pairs_sim ascii_sim_pairs). Qed.
